@@ -17,10 +17,10 @@ ILL_COND = 50.0    # leading block with cond >= 100: contracted Q loses orthonor
 
 
 @st.composite
-def qr_cases(draw, tier):
-    hi = 7 if tier == "quick" else 9
+def qr_cases(draw, tier, size=None):
+    lo_, hi = size or (1, 7 if tier == "quick" else 9)
     shape_kind = draw(st.sampled_from(["any", "any", "wide", "row", "col", "square", "tall"]))
-    m, n = draw(st.integers(1, hi)), draw(st.integers(1, hi))
+    m, n = draw(st.integers(lo_, hi)), draw(st.integers(lo_, hi))
     if shape_kind == "wide" and m >= n:
         m, n = min(m, n), max(m, n) + (1 if m == n else 0)
     elif shape_kind == "tall" and m <= n:
@@ -198,6 +198,8 @@ PROPERTY = Property(
     title="Quaternion QR reproduces A with orthonormal Q and triangular R for every shape",
     rule="m < n (wide), or numerical rank of the leading min(m,n) columns < min(m,n), or m = 1",
     clauses=[Clause("qr", check_qr, strategy=qr_cases, budget={"quick": 1500, "thorough": 24000}),
+             Clause("qr_moderate_size", check_qr, strategy=lambda tier: qr_cases(tier, size=(9, 20 if tier == "quick" else 40)),
+                    budget={"quick": 40, "thorough": 400}, shrink=False),
              Clause("qr_long_dimension", check_qr, strategy=long_qr_cases, budget={"quick": 32, "thorough": 320}, shrink=False)],
     assumptions=[
         "orthonormality / reconstruction judged in the harness's own Hamilton arithmetic with c*(m+n)*u bounds (c=200)",
